@@ -15,6 +15,7 @@ func zzC12FS() *zzFS {
 	return newZZFS(map[string]string{
 		"page.vuego":         `<h1>{{ title }}</h1><template include="c.vuego" :n="n"></template><ul><li v-for="i in items">{{ i }}</li></ul>`,
 		"c.vuego":            `<p>{{ n }}</p>`,
+		"scr.vuego":          `<h1>{{ title }}</h1><p>intro</p><script>var q = "{{ endtag }}";</script><style>p::after { content: "{{ endtag }}" }</style><i>tail</i>`,
 		"bad_early.vuego":    `<p>{{ title | nofn }}</p><h1>late</h1>`,
 		"bad_late.vuego":     `<h1>ok</h1><ul><li v-for="i in items">{{ i | nofn }}</li></ul>`,
 		"bad_mid.vuego":      `<p title="t-{{ title }}-{{ title | nofn }}">card {{ title }} / {{ n | nofn }}</p>`,
@@ -28,7 +29,7 @@ func zzC12FS() *zzFS {
 	})
 }
 
-var zzC12Files = []string{"page.vuego", "bad_early.vuego", "bad_late.vuego", "bad_mid.vuego", "bad_inc.vuego", "bad_req.vuego", "lp.vuego", "lbad.vuego", "nofile.vuego"}
+var zzC12Files = []string{"page.vuego", "bad_early.vuego", "bad_late.vuego", "bad_mid.vuego", "bad_inc.vuego", "bad_req.vuego", "lp.vuego", "lbad.vuego", "nofile.vuego", "scr.vuego"}
 
 var zzC12Strings = []string{
 	`<h1>{{ title }}</h1><template include="c.vuego" :n="n"></template>`,
@@ -39,7 +40,7 @@ var zzC12Strings = []string{
 }
 
 func zzC12Data() map[string]any {
-	return map[string]any{"title": "T", "n": 7, "items": []int{1, 2}}
+	return map[string]any{"title": "T", "n": 7, "items": []int{1, 2}, "endtag": "</script></STYLE ><b>"}
 }
 
 // VerifC12_AllOrNothing: every entry point x program x writer failing at an
